@@ -187,6 +187,14 @@ theorem upperBoundCivil_go_eq (a : Array Transition) (cs : Fields) (fuel : Nat) 
 
 /-! ## the searches on a well-formed table -/
 
+theorem getTrans_eq (z : Zone) (i : Nat) (h : i < z.transitions.size) :
+    getTrans z i = pure (trn z i) := by
+  simp [getTrans, trn, Array.getD, h]
+
+theorem getType_eq (z : Zone) (i : Nat) (h : i < z.types.size) :
+    getType z i = pure (typ z i) := by
+  simp [getType, typ, Array.getD, h]
+
 theorem utime_eq (z : Zone) (i : Nat) (h : i < z.transitions.size) :
     utime z.transitions i = (trn z i).unixTime := by
   simp [utime, trn, Array.getD, h]
